@@ -483,17 +483,18 @@ def gen_cases(ctx, nprog, nsched):
 
 
 # --------------------------------------------------------------------------- the model side
+MODEL_ARGS = []     # ["fx1"] when /repo implements the repaired close protocol (decided by a probe run, see engine)
 def run_model(ctx, pairs):
     """pairs: list of (case, result_line) -> list of verdict strings ("OK ..." / "MISMATCH ...")"""
     if not pairs:
         return []
     lines = ["%d\t%s\t%s" % (c["size"], c["line"], o) for (c, o) in pairs]
-    return vlib.run_model("twr", lines, timeout=3000)
+    return vlib.run_model("twr", lines, args=MODEL_ARGS, timeout=3000)
 
 
 def enum_schedules(ctx, size, line, bound, maxn):
     """ask the extracted model for every schedule of the program with at most `bound` preemptions"""
-    rc, out = vlib.sh([os.path.join(vlib.BUILD, "jlsmodel"), "twr", "enum", str(size), str(bound), str(maxn)], inp=line + "\n", timeout=3000)
+    rc, out = vlib.sh([os.path.join(vlib.BUILD, "jlsmodel"), "twr"] + MODEL_ARGS + ["enum", str(size), str(bound), str(maxn)], inp=line + "\n", timeout=3000)
     return [l for l in out.splitlines() if l and not l.startswith("#")]
 
 
@@ -503,6 +504,12 @@ def engine(ctx, which):
     property, replays every run on the extracted model."""
     quick = ctx.tier == "quick"
     twr_build(ctx)
+    # which close protocol does /repo implement?  probe = the minimal close-hang schedule
+    probe = parse_result(run_twr(ctx, "plain", 4096, ["probe|" + CORPUS[0][2]])[0][0])
+    del MODEL_ARGS[:]
+    if probe.st == "OK":
+        MODEL_ARGS.append("fx1")
+    ctx.extra["model_variant"] = "fx=true (repaired close: CLOSE is sent until queued)" if MODEL_ARGS else "fx=false (close as in the pinned source: failed CLOSE send ignored)"
     nprog, nsched = (40, 9) if quick else (120, 40)
     cases, progs, labels = gen_cases(ctx, nprog, nsched)
     dist = {"programs": len(progs) + len(CORPUS) + len(DEFECT_CORPUS), "program_ops": {}, "runs": 0}
